@@ -172,6 +172,15 @@ class Stubs:
             return L.BoolV(self.isinstance_formula(ex, v, t))
         raise Unsupported('isinstance of %r' % (v,))
 
+    def b_getattr(self, ex, args, kwargs):
+        if len(args) == 2 and isinstance(args[0], St) and args[0].kind == 'module' and isinstance(args[1], z3.ExprRef):
+            lit = ex.lit_of(args[1])
+            if lit is not None and lit.isidentifier() and not lit.startswith('_'):
+                # getattr(module, 'NAME') with a constant name is module.NAME
+                return self.engine.static_attr(ex, args[0], lit)
+        ex.event('forbidden_call', 'getattr')
+        return self.unknown_call(ex, 'builtin getattr', [ex.to_val(a) for a in args if not isinstance(a, Pack)])
+
     def b_hasattr(self, ex, args, kwargs):
         # a pure test: no attribute value is handed out
         v = ex.to_val(args[0])
@@ -968,6 +977,20 @@ class Stubs:
                 return self.unmodelled_method(ex, recv, 'dict', name, args)
             return m(ex, recv, L.simp(Val.dref(recv)), args, kwargs)
         if ex.branch(L.is_Str(recv), 'm-str'):
+            lit = ex.lit_of(recv)
+            if lit is not None and name in ('upper', 'lower', 'strip', 'lstrip', 'rstrip', 'capitalize', 'title', 'swapcase', 'casefold',
+                                            'startswith', 'endswith', 'isdigit', 'isalpha', 'isupper', 'islower', 'replace') and not kwargs:
+                # a method of a string LITERAL applied to literals: the constant it denotes
+                lits = [ex.lit_of(ex.to_val(a)) if isinstance(a, z3.ExprRef) else None for a in args]
+                if all(x is not None for x in lits):
+                    try:
+                        r = getattr(lit, name)(*lits)
+                    except Exception:
+                        r = None
+                    if isinstance(r, str):
+                        return ex.str_lit(r)
+                    if isinstance(r, bool):
+                        return L.BoolV(z3.BoolVal(r))
             m = getattr(self, 'str_' + name, None)
             if m is None:
                 if name in STR_PURE:
